@@ -5,7 +5,7 @@ to DEPTH-1 '..' segments still lands inside ROOT (and ROOT is removed after ever
 
 case = (name, base, temp, clean, filed, extensioned, fext, pre, steps)
   pre   = [(relative path below HEAD, 'd' | 'f'), ...]  created before the Filer (non-temp only)
-  steps = [("reopen", clear, reuse, clean) | ("close", clear), ...]  applied after the constructor
+  steps = [("reopen", clear, reuse, clean[, temp None|bool[, fext None|str]]) | ("close", clear), ...]  applied after the constructor
 """
 import itertools
 import os
@@ -100,9 +100,16 @@ def gen_steps(rng):
         return []
     steps = []
     for _ in range(rng.choice([0, 0, 0, 1, 1, 2])):
-        steps.append(("reopen", rng.random() < 0.5, rng.random() < 0.4, rng.random() < 0.4))
+        steps.append(gen_reopen(rng, rng.random() < 0.4))
     steps.append(("close", rng.random() < 0.8))
     return steps
+
+
+def gen_reopen(rng, clean):
+    """reopen(clear, reuse, clean, temp, fext): about a third of the calls change a setting"""
+    temp = rng.choice([None, None, None, None, True, False])
+    fext = rng.choice([None, None, None, None, None, "db", "text"])
+    return ("reopen", rng.random() < 0.5, rng.random() < 0.35, clean, temp, fext)
 
 
 def gen_pre(rng, name, base, clean, filed, extensioned, fext):
@@ -178,8 +185,8 @@ def gen_revisit(rng):
         if rng.random() < 0.3:
             pre = [e for e in pre if rng.random() < 0.8 or e[1] == "d"]
     steps = []
-    for _ in range(rng.choice([0, 1, 1, 2])):
-        steps.append(("reopen", rng.random() < 0.4, rng.random() < 0.35, clean if rng.random() < 0.85 else not clean))
+    for _ in range(rng.choice([0, 1, 1, 2, 3])):
+        steps.append(gen_reopen(rng, clean if rng.random() < 0.85 else not clean))
     if rng.random() < 0.9:
         steps.append(("close", rng.random() < 0.75))
     return (name, base, temp, clean, filed, ext, fext, pre, steps)
